@@ -420,6 +420,9 @@ def clause6_predicates_and_path(ctx, P, cg):
                     t = t[2]
                 if t is not None and Q.is_call_to(t, "cJSON_IsTrue") and is_item(t[2][0]):
                     ntrue += 1
+                elif t is not None and t[0] == "cmp" and t[1] == "eq" and t[3] == ("const", TRUE) and \
+                        Q.is_field_load(t[2], "struct.cJSON", "type") is not None and is_item(Q.is_field_load(t[2], "struct.cJSON", "type")):
+                    ntrue += 1   # returns (item->type == cJSON_True) itself
                 else:
                     bad = v
         ctx.ob("C20.1 R-RET", f, "true-only-for-json-true", bad is None and ntrue > 0,
